@@ -12,6 +12,9 @@ def rfloat(r, lo, hi, nd=4):
 
 
 # ----------------------------------------------------------------------------------------
+RENUMBER = True
+
+
 def gen_mesh(r, dim=None, allow=("linear", "quadratic", "full", "simplex", "simplex2"), max_cells=8, perturb=True):
     dim = dim or r.choice([2, 3, 3])
     fam = r.choice(list(allow))
@@ -37,6 +40,11 @@ def gen_mesh(r, dim=None, allow=("linear", "quadratic", "full", "simplex", "simp
         m["convert"] = conv
     if perturb and r.random() < 0.6:
         m["perturb"] = {"seed": r.randrange(1 << 30), "amp": r.choice([0.05, 0.1, 0.15, 0.2, 0.25])}
+    if RENUMBER and r.random() < 0.15:
+        m["roll"] = True  # cells start at another corner
+    if RENUMBER and r.random() < 0.3:
+        # valid but unusual numbering: points and cells in shuffled order
+        m["renumber"] = {"seed": r.randrange(1 << 30), "cells": r.random() < 0.7}
     return m
 
 
@@ -185,6 +193,12 @@ def gen_job(seed, profile="general"):
             extra.append({"type": "PointLoad", "points": {"axis": 0, "at": "max", "first": 2}, "values": [0.0] * fd, "_top": [rfloat(r, -0.02, 0.02) for _ in range(fd)]})
             if fkind == "Axi":
                 extra[-1]["axisymmetric"] = r.random() < 0.6  # ring load: 2 pi r times the value
+            if r.random() < 0.5:
+                # values per point (one row per listed point), points listed in descending order
+                extra[-1]["order"] = "reversed"
+                tv = extra[-1]["_top"]
+                extra[-1]["values"] = [[0.0] * fd, [0.0] * fd]
+                extra[-1]["_top"] = [tv, [round(-0.5 * c, 6) for c in tv]]
         elif kind == "SolidBodyGravity":
             extra.append({"type": "SolidBodyGravity", "gravity": [0.0] * fd, "density": rfloat(r, 0.5, 2.0), "_top": [rfloat(r, -0.1, 0.1) for _ in range(fd)]})
         elif kind == "SolidBodyForce":
@@ -201,11 +215,11 @@ def gen_job(seed, profile="general"):
             gap = r.choice([0.01, 0.02, 0.05]) if pick == "contact" else 0.2
             mesh["extra_point"] = [0.5 * bb[0], bb[1] + gap] + ([0.5 * bb[2]] if dim == 3 else [])
             if pick == "mpc":
-                extra.append({"type": "MultiPointConstraint", "points": {"axis": 1, "at": "max"}, "centerpoint": {"at": "extra"}, "skip": [r.random() < 0.3 for _ in range(dim)], "multiplier": r.choice([1.0, 10.0, 100.0])})
+                extra.append({"type": "MultiPointConstraint", "points": {"axis": 1, "at": "max"}, "centerpoint": {"at": "extra"}, "skip": [r.random() < 0.3 for _ in range(dim)], "multiplier": r.choice([1.0, 10.0, 100.0]), "negative_index": r.random() < 0.5})
                 if all(extra[-1]["skip"]):
                     extra[-1]["skip"][1] = False
             else:
-                extra.append({"type": "MultiPointContact", "points": {"axis": 1, "at": "max"}, "centerpoint": {"at": "extra"}, "skip": [True, False] + ([True] if dim == 3 else []), "multiplier": r.choice([10.0, 100.0, 1000.0])})
+                extra.append({"type": "MultiPointContact", "points": {"axis": 1, "at": "max"}, "centerpoint": {"at": "extra"}, "skip": [True, False] + ([True] if dim == 3 else []), "multiplier": r.choice([10.0, 100.0, 1000.0]), "negative_index": r.random() < 0.5})
                 top = -abs(top) * 2 if r.random() < 0.8 else top
         elif pick == "cauchy" and quadhex and fkind in ("Field", "PlaneStrain"):
             sg = [[rfloat(r, -0.1, 0.1) for _ in range(3)] for _ in range(3)]
@@ -266,7 +280,9 @@ def gen_job(seed, profile="general"):
         for k, it in enumerate(items):
             if "_top" in it:
                 tv = it["_top"]
-                if isinstance(tv, list):
+                if isinstance(tv, list) and isinstance(tv[0], list):
+                    ramp.append({"target": f"item:{k}", "values": [[[round(c * (i + 1) / n, 6) for c in row] for row in tv] for i in range(n)]})
+                elif isinstance(tv, list):
                     ramp.append({"target": f"item:{k}", "values": [[round(c * (i + 1) / n, 6) for c in tv] for i in range(n)]})
                 else:
                     ramp.append({"target": f"item:{k}", "values": [round(tv * (i + 1) / n, 6) for i in range(n)]})
